@@ -80,6 +80,10 @@ def _names_outside_indices(e):
         if isinstance(x, ast.Subscript):
             walk(x.value)
             return
+        if isinstance(x, ast.IfExp):
+            walk(x.body)          # the test selects, it does not enter the arithmetic
+            walk(x.orelse)
+            return
         if isinstance(x, ast.Name):
             out.add(x.id)
         for y in ast.iter_child_nodes(x):
